@@ -1087,6 +1087,80 @@ def r03r(rep, F, solves):
     rep.require_count('R03r', 'refusal exits guarded by a measure of the planner\'s own structures', n, 46)
 
 
+class PreservedExact(paths.Client):
+    """at every store M = S of the preserved solution node: can the approximate flag be true?"""
+    track = 'vars'
+
+    def __init__(self, fn, member, flagnode_of, relevant):
+        self.relevant = relevant
+        self.member = member
+        self.flagnode_of = flagnode_of
+        self.bad = []
+        self.stores = 0
+
+    def on_node(self, fn, node, auto, ctx):
+        if node['k'] == 'BinaryOperator' and node.get('op') == '=':
+            l = fn.strip(node['ch'][0])
+            if l is not None and l['k'] == 'MemberExpr' and l.get('name') == self.member and (fn.strip(l['ch'][0]) or {}).get('k') == 'CXXThisExpr':
+                r = fn.strip(node['ch'][1])
+                if r is not None and r['k'] not in ('CXXNullPtrLiteralExpr', 'GNUNullExpr'):
+                    self.stores += 1
+                    fl = self.flagnode_of(node)
+                    v = ctx.eval(fl) if fl is not None else None
+                    if v is not False:
+                        self.bad.append((node['id'], ctx.path()))
+        return auto
+
+
+def r03t(rep, F, solves, rule='R03t'):
+    rep.rule(rule, 'a solution node preserved for the next solve() is an exact one: where solve() seeds its exact-solution variable from a member '
+                   '(Motion *solution = lastGoalMotion_;) and decides "exact" by that variable being non-null, every store back into the member '
+                   'happens on paths where the approximate flag of the returned status is known false.  Storing the node after the '
+                   'fall-back "solution = approxSol; approximate = true" makes the next solve() start with the approximate node as its exact '
+                   'solution: it reports EXACT_SOLUTION for a path that does not reach the goal')
+    n = 0
+    for f in solves:
+        seeds = {}
+        for ds in [x for x in f.walk() if x['k'] == 'DeclStmt']:
+            for d in ds.get('decls', []):
+                i = f.strip(d['init']) if d.get('init') else None
+                if i is not None and i['k'] == 'MemberExpr' and (f.strip(i['ch'][0]) or {}).get('k') == 'CXXThisExpr' and '*' in (d.get('ty') or '') \
+                        and re.search(r'Motion|Vertex', d.get('ty') or ''):
+                    seeds['%s#%d' % (d['name'], d['did'])] = i.get('name')
+        if not seeds:
+            continue
+        # the approximate flag: second boolean local of the returned status
+        flag = None
+        for r in [x for x in f.walk() if x['k'] == 'ReturnStmt' and x['ch']]:
+            bl = [x for x in f.walk(r['ch'][0]) if x['k'] == 'DeclRefExpr' and x.get('dk') == 'Local' and (x.get('ty') or '').replace('const ', '') == 'bool']
+            if len(bl) == 2:
+                flag = '%s#%d' % (bl[1]['name'], bl[1]['did'])
+        if flag is None:
+            continue
+        for skey, member in sorted(seeds.items()):
+            stores = [x for x in f.walk() if x['k'] == 'BinaryOperator' and x.get('op') == '=' and (f.strip(x['ch'][0]) or {}).get('name') == member
+                      and (f.strip(x['ch'][0]) or {}).get('k') == 'MemberExpr' and key(f, x['ch'][1]) == skey]
+            if not stores:
+                continue
+            n += 1
+
+            def flagnode_of(node, f=f, flag=flag):
+                # any later read of the flag evaluates the same tracked variable: use its declaration's name through a DeclRefExpr node
+                for x in f.walk():
+                    if x['k'] == 'DeclRefExpr' and '%s#%d' % (x.get('name'), x.get('did')) == flag:
+                        return x['id']
+                return None
+            cl = PreservedExact(f, member, flagnode_of, {flag, skey})
+            paths.run_function(f, cl, F)
+            ok = not cl.bad
+            rep.add(rule, f.name, 'preserved-node-is-exact:' + member, ok, f.where(cl.bad[0][0]) if cl.bad else f.where(stores[0]),
+                    '%s is stored only where %s is known false' % (member, nofp(flag)) if ok else
+                    '%s = %s is reached with %s possibly true (after the approximate fall-back): the next solve() seeds its exact solution '
+                    'from it and reports an exact status for a path that ends outside the goal' % (member, nofp(skey), nofp(flag)),
+                    cl.bad[0][1] if cl.bad else None)
+    rep.require_count(rule, 'solve() functions that seed their exact solution from a preserved node', n, 2)
+
+
 def run(rep):
     units = P.geometric_units() + P.control_units() + P.multilevel_units() + P.base_units()
     F = facts.load_units(units)
@@ -1116,6 +1190,7 @@ def run(rep):
     r03n(rep, F, solves)
     r03q(rep, F)
     r03r(rep, F, solves)
+    r03t(rep, F, solves)
     # the RRTConnect side-flag invariant decides which branch is reported as the approximate solution of an interrupted solve
     from rules import c01
     c01.r01k(rep, F)
